@@ -682,7 +682,7 @@ for _r in OP_RULES:
     FAULTS["operation-validity:%s" % _r] = _ast_mutation(_r)
 FAULT_NAMES = list(FAULTS)
 
-PRIOR_STATES = ["absent", "empty_dir", "previous_generation", "user_files"]
+PRIOR_STATES = ["absent", "empty_dir", "previous_generation", "user_files", "absent_parent"]
 C17_CORPUS = ["W3-chains-diamonds-shared", "W15-custom-ops-fragments-only", "W11-graphqlschema-py", "W5-upload-scalars-mixin", "W8-multi-file-tree",
               "W12-config-5-frags", "W11-graphqlschema-graphql", "W4-input-defaults", "W10-plugins-3"]
 
@@ -762,6 +762,13 @@ def run_case(case, ch: Choices) -> RunResult:
         ctx.write_config()
         mat = ctx.mat
         expect = ctx.expect
+        if prior == "absent_parent" and world["strategy"] == "graphqlschema" and expect[0] == "invalid":
+            # the directory the schema file would be written into does not exist yet: a rejected run must not create it
+            # (for the client strategy a missing target_package_path is itself a configuration fault: target_path_missing)
+            out_dir = os.path.dirname(target)
+            if os.path.isdir(out_dir) and not os.listdir(out_dir) and os.path.abspath(out_dir) != os.path.abspath(root):
+                os.rmdir(out_dir)
+                res.bump("prior.absent_parent_applied")
         before = _project_snapshot(root)
         r = genrun.run_child(root, ctx.argv, mat["targets"], env=ctx.env, env_unset=ctx.env_unset)
         if r.get("harness_failure"):
@@ -836,7 +843,9 @@ def plan(tier, base_seed) -> Plan:
             applies = getattr(FAULTS[fname], "applies", None)
             if applies and applies != strat:
                 continue
-            priors = [PRIOR_STATES[(fi + wi) % 4]] if tier == "quick" else PRIOR_STATES
+            priors = [PRIOR_STATES[(fi + wi) % len(PRIOR_STATES)]] if tier == "quick" else PRIOR_STATES
+            if tier == "quick" and strat == "graphqlschema" and fi % 2 == 0 and "absent_parent" not in priors:
+                priors = priors + ["absent_parent"]
             for pr in priors:
                 enum.append((w, fname, pr))
     n_enum = len(enum)
